@@ -89,6 +89,8 @@ type Options struct {
 }
 
 type world struct {
+	forced map[string]string // label -> forced visibility pattern / faulty strategy
+	victim int
 	opt    Options
 	t      *rapid.T
 	s      setup
@@ -460,7 +462,7 @@ func RunFree(t *rapid.T, opt Options) {
 		t.Fatalf("VERIF-INFRA: shadow: %v", err)
 	}
 	defer shadow.Close()
-	w := &world{opt: opt, t: t, s: s, net: net, blocks: map[int64][]blockInfo{}}
+	w := &world{victim: -1, opt: opt, t: t, s: s, net: net, blocks: map[int64][]blockInfo{}}
 	// adversarial intensity of this case
 	style := rapid.SampledFrom([]string{"calm", "mixed", "mixed", "hostile"}).Draw(t, "style")
 	var weights []string
@@ -475,36 +477,7 @@ func RunFree(t *rapid.T, opt Options) {
 	prev := w.observe(nil)
 	steps := 0
 	for ; steps < maxSteps; steps++ {
-		switch rapid.SampledFrom(weights).Draw(t, "act") {
-		case "sync":
-			w.deliverAllSync()
-		case "burst":
-			w.deliverBurst()
-		case "one":
-			w.deliverOne()
-		case "class":
-			w.deliverClass()
-		case "fire":
-			w.fireOne()
-		case "fireall":
-			w.fireAll()
-		case "partition":
-			w.partition()
-		case "heal":
-			w.heal()
-		case "bprop":
-			if !w.byzPropose() {
-				w.deliverBurst()
-			}
-		case "bvote":
-			if !w.byzVotes() {
-				w.deliverOne()
-			}
-		case "maj23":
-			if !w.byzMaj23() {
-				w.deliverOne()
-			}
-		}
+		w.step(weights)
 		w.check(shadow, fmt.Sprintf("step %d", steps))
 		prev = w.observe(prev)
 		min := int64(1 << 62)
@@ -630,9 +603,28 @@ func (w *world) drawGroup(label string) map[int]bool {
 }
 
 func (w *world) drawPattern(label string, prevGroup map[int]bool) pattern {
-	kind := rapid.SampledFrom([]string{"all", "all", "all", "split", "split", "split", "one", "one", "none"}).Draw(w.t, label+".vis")
+	kind := rapid.SampledFrom([]string{"all", "all", "all", "split", "split", "one", "victim-only", "victim-only", "all-but-victim", "all-but-victim", "none"}).Draw(w.t, label+".vis")
+	if f, ok := w.forced[label]; ok {
+		kind = f // scripted gadget (C03 prefixes); the draw above is kept so that shrinking stays aligned
+	}
 	p := pattern{kind: kind}
+	if w.victim < 0 {
+		// one node is singled out for the whole case: the patterns "only the victim sees it" / "everyone but the
+		// victim sees it" in consecutive phases are what leaves nodes locked on different values
+		w.victim = rapid.SampledFrom(w.net.Order).Draw(w.t, "victim")
+	}
 	switch kind {
+	case "victim-only":
+		p.kind, p.group = "one", map[int]bool{w.victim: true}
+	case "partial-all":
+		p.kind, p.group = "split", map[int]bool{}
+	case "all-but-victim":
+		p.kind, p.group = "split", map[int]bool{}
+		for _, k := range w.net.Order {
+			if k != w.victim {
+				p.group[k] = true
+			}
+		}
 	case "split":
 		if prevGroup != nil && rapid.IntRange(0, 2).Draw(w.t, label+".reuse") != 0 {
 			p.group = prevGroup
@@ -778,11 +770,33 @@ func (w *world) faultyVotes(h int64, r int32, typ tmproto.SignedMsgType, pat pat
 	}
 	for _, k := range w.s.faulty {
 		strat := rapid.SampledFrom([]string{"two-faced", "two-faced", "two-faced", "two-faced", "mirror-all", "mirror-all",
-			"silent", "nil-all", "x-all", "x-group-y-rest"}).Draw(w.t, label+".strat")
+			"silent", "nil-all", "x-all", "x-group-y-rest", "follow"}).Draw(w.t, label+".strat")
+		if f, ok := w.forced[label+".strat"]; ok {
+			strat = f
+		}
 		if strat == "silent" {
 			continue
 		}
 		w.stats.byzVotes++
+		if strat == "follow" {
+			// vote for what most correct nodes voted for in this phase, towards everyone
+			count := map[string]int{}
+			ids := map[string]types.BlockID{}
+			best := ""
+			for _, n := range w.active(h) {
+				if id, ok := w.ownVote(n.Key, h, r, kind); ok {
+					count[id.Key()]++
+					ids[id.Key()] = id
+					if best == "" || count[id.Key()] > count[best] {
+						best = id.Key()
+					}
+				}
+			}
+			if best != "" {
+				w.net.InjectVote(k, typ, h, r, ids[best], nil)
+			}
+			continue
+		}
 		switch strat {
 		case "two-faced", "mirror-all":
 			for _, n := range w.active(h) {
@@ -925,6 +939,9 @@ func (w *world) structuredByzProposal(h int64, r int32, pk int, pat pattern) {
 		return
 	}
 	strat := rapid.SampledFrom([]string{"none", "new", "new", "new", "new", "reuse", "two", "two", "invalid"}).Draw(w.t, "bprop.strat")
+	if f, ok := w.forced["bprop.strat"]; ok {
+		strat = f
+	}
 	mk := func(i int, invalid bool) *blockInfo {
 		tx := types.Tx(fmt.Sprintf("byz-%d-%d-%d-%d", h, r, i, len(w.net.Pool)))
 		var mut func(*types.Block)
@@ -1005,7 +1022,7 @@ func RunStructured(t *rapid.T, opt Options) {
 		t.Fatalf("VERIF-INFRA: shadow: %v", err)
 	}
 	defer shadow.Close()
-	w := &world{opt: opt, t: t, s: s, net: net, blocks: map[int64][]blockInfo{}}
+	w := &world{victim: -1, opt: opt, t: t, s: s, net: net, blocks: map[int64][]blockInfo{}}
 	heights := rapid.IntRange(1, 2).Draw(t, "heights")
 	for h := int64(1); h <= int64(heights); h++ {
 		w.playHeight(shadow, h, rapid.Int32Range(2, 5).Draw(t, "rounds"))
@@ -1028,4 +1045,42 @@ func RunStructured(t *rapid.T, opt Options) {
 		}
 	}
 	w.finish(test, "structured", 0)
+}
+
+var mixedWeights = []string{"sync", "burst", "burst", "one", "one", "class", "class", "fire", "fire", "fireall", "partition", "heal", "bprop", "bvote", "bvote", "maj23"}
+
+func (w *world) freeStep() { w.step(mixedWeights) }
+
+func (w *world) step(weights []string) {
+	t := w.t
+	switch rapid.SampledFrom(weights).Draw(t, "act") {
+	case "sync":
+		w.deliverAllSync()
+	case "burst":
+		w.deliverBurst()
+	case "one":
+		w.deliverOne()
+	case "class":
+		w.deliverClass()
+	case "fire":
+		w.fireOne()
+	case "fireall":
+		w.fireAll()
+	case "partition":
+		w.partition()
+	case "heal":
+		w.heal()
+	case "bprop":
+		if !w.byzPropose() {
+			w.deliverBurst()
+		}
+	case "bvote":
+		if !w.byzVotes() {
+			w.deliverOne()
+		}
+	case "maj23":
+		if !w.byzMaj23() {
+			w.deliverOne()
+		}
+	}
 }
